@@ -114,6 +114,9 @@ def oracle(prop, run):
             for e in evs:
                 if e["time"] < e["release"]:
                     yield ("C02 started-before-release", {"event": e})
+                if e.get("intended", -1) >= 0 and e["time"] < e["intended"]:
+                    # `release(time)` overwrites the release time: the time given at construction is the ground truth
+                    yield ("C02 started-before-intended-release-time", {"event": e})
                 done = [p for p in e["parents"] if p[1] in DONE and p[2] is not None and p[2] <= e["time"]]
                 if e["terminal"]:
                     if e["parents"] and not done:
@@ -128,6 +131,9 @@ def oracle(prop, run):
         for t, evs in finishes.items():
             if len(evs) > 1:
                 yield ("C02 task-finished-twice", {"task": t})
+        for e in mon:
+            if e["ev"] == "release" and e.get("intended", -1) >= 0 and e["time"] is not None and 0 <= e["time"] < e["intended"]:
+                yield ("C02 released-before-intended-release-time", {"event": e})
         if obs["err"] is None:
             for di, d in enumerate(case["decisions"]):
                 pass  # past placements abort the run with ValueError (checked by the correspondence)
@@ -238,6 +244,7 @@ def oracle(prop, run):
                 t = tasks.get(r[5])
                 if t and int(r[0]) != t["start"]:
                     yield ("C08 task-placement-row-time-wrong", {"row": r})
+        yield from csv_reader_oracle(obs, world)
         # scheduler rows: placed / unplaced counts vs the decisions actually returned
         fin_rows = [r for r in rows if r[1] == "SCHEDULER_FINISHED"]
         for r, d in zip(fin_rows, case["decisions"]):
@@ -247,6 +254,73 @@ def oracle(prop, run):
                 yield ("C08 scheduler-finished-placed-count-wrong", {"row": r, "placed": placed})
             if int(r[4]) != unplaced:
                 yield ("C08 scheduler-finished-unplaced-count-wrong", {"row": r, "unplaced": unplaced})
+
+
+def csv_reader_oracle(obs, world):
+    """Feed the trace to the project's own CSVReader and compare what it reconstructs with the run."""
+    from data.csv_reader import CSVReader
+    import contextlib, io
+
+    rows = [[("0" if c == "<true_runtime>" else c) for c in row] for row in obs["rows"]]
+    tasks, graphs = obs["tasks"], {g["name"]: g for g in obs["graphs"]}
+    rd = CSVReader.__new__(CSVReader)
+    rd._simulators = {}
+    released_graphs = {r[4] for r in rows if len(r) > 4 and r[1] == "TASK_GRAPH_RELEASE"}
+    cancel_rows = {}
+    for r in rows:
+        if len(r) > 5 and r[1] == "TASK_CANCEL":
+            cancel_rows[r[5]] = cancel_rows.get(r[5], 0) + 1
+    closed_loop = {g["name"] for g in world["workload"]["graphs"] if g["release_policy"] == "closed_loop"}
+    try:
+        with contextlib.redirect_stdout(io.StringIO()):
+            rd.parse_events({"trace": rows})
+    except AssertionError:
+        # the reader's own end-of-trace consistency assertions (finished / missed / cancelled graph counts)
+        limbo = [n for n, g in graphs.items() if not g["complete"] and not g["cancelled"] and cancel_rows.get(n)]
+        cause = "unfinished-graph-with-a-cancelled-task-counted-as-cancelled" if limbo else "unclassified"
+        yield (f"C08 csvreader-rejects-trace AssertionError cause={cause}", {"graphs": limbo[:5]})
+        return
+    except Exception as e:  # ValueError wrapping the real cause
+        c = e.__cause__
+        gname = str(c).strip("'\"") if isinstance(c, KeyError) else None
+        if gname in graphs and gname not in released_graphs and gname.split("@")[0] in closed_loop:
+            cause = "closed-loop-follow-up-graph-has-no-TASK_GRAPH_RELEASE-row"
+        else:
+            cause = "unclassified"
+        yield (f"C08 csvreader-rejects-trace {type(c).__name__ if c else type(e).__name__} cause={cause}", {"error": str(e)[:300], "cause": repr(c)[:200]})
+        return
+    sim = rd._simulators["trace"]
+    rtasks = {t.task_id: t for t in sim.tasks}
+    for lab, t in tasks.items():
+        rt = rtasks.get(lab)
+        appeared = any(len(r) > 7 and r[1] == "TASK_RELEASE" and r[7] == lab for r in rows) or any(len(r) > 4 and r[1] == "TASK_CANCEL" and r[4] == lab for r in rows)
+        if rt is None:
+            if appeared:
+                yield ("C08 csvreader-lost-a-task", {"task": lab})
+            continue
+        if bool(rt.cancelled) != (t["state"] == "CANCELLED"):
+            yield ("C08 csvreader-task-cancelled-flag-wrong", {"task": lab, "reader": bool(rt.cancelled), "state": t["state"]})
+        if t["state"] in DONE:
+            if rt.completion_time != t["completion"]:
+                yield ("C08 csvreader-task-completion-time-wrong", {"task": lab, "reader": rt.completion_time, "actual": t["completion"]})
+            if bool(rt.missed_deadline) != (t["completion"] > t["deadline"]):
+                yield ("C08 csvreader-task-missed-deadline-wrong", {"task": lab, "reader": bool(rt.missed_deadline)})
+        elif getattr(rt, "completion_time", None) is not None:
+            yield ("C08 csvreader-reports-unfinished-task-complete", {"task": lab, "state": t["state"]})
+    for name, rg in sim.task_graphs.items():
+        g = graphs.get(name)
+        if g is None:
+            yield ("C08 csvreader-unknown-graph", {"graph": name})
+            continue
+        if bool(rg.was_completed) != g["complete"]:
+            yield ("C08 csvreader-graph-completed-flag-wrong", {"graph": name, "reader": bool(rg.was_completed), "actual": g["complete"]})
+        limbo = not g["complete"] and not g["cancelled"]
+        if bool(rg.cancelled) != g["cancelled"] and not limbo:
+            yield ("C08 csvreader-graph-cancelled-flag-wrong", {"graph": name, "reader": bool(rg.cancelled), "actual": g["cancelled"]})
+        if g["complete"]:
+            comp = max(tasks[s]["completion"] for s in g["sinks"]) if g["sinks"] else None
+            if comp is not None and rg.completion_at != comp:
+                yield ("C08 csvreader-graph-completion-time-wrong", {"graph": name, "reader": rg.completion_at, "actual": comp})
 
 
 def shrink_world(world, seed, fails):
